@@ -18,7 +18,7 @@ structure Base (a : Actor) (s : St) : Prop where
   stopVal : ∀ r, a.stopVal = some r → r.isUser = true ∧ s.stopReason = some r
   drain : Item.drain ∈ a.msgQ → s.drainReq = true
   stopTx : s.stopReason.isSome = true → a.stopTx = false
-  kill : a.sigVal = true → s.killed = true ∨ a.sup = none
+  kill : a.sigVal = true → s.killed = true
   localEq : s.isLocal = a.isLocal
 
 /-- What holds of a live (not `done`) actor at op boundaries. -/
@@ -73,8 +73,24 @@ theorem next_cancelled_other (s : St) (cb : Cb) (h : cb ≠ .preStart) :
 @[simp] theorem next_drainRet (s : St) (ok : Bool) :
     next me s (.drainRet ok) = .ok (if ok then { s with drainReq := true } else s) := by
   cases ok <;> rfl
-theorem next_spawnRet_err (s : St) (r : SpawnRet) (h : r ≠ .ok) : next me s (.spawnRet r) = .ok s := by
-  cases r <;> first | rfl | exact absurd rfl h
+/-- The spawn results of a start that failed for an ordinary reason. -/
+def SpawnRet.isFail : SpawnRet → Bool
+  | .killed | .nolink | .startup _ _ => true
+  | _ => false
+
+def failUpd (r : SpawnRet) (s : St) : St :=
+  match r with
+  | .killed => { s with preFailed := true }
+  | _ => s
+
+theorem failUpd_sup (r : SpawnRet) (s : St) : (failUpd r s).sup = s.sup := by cases r <;> rfl
+
+theorem next_spawnRet_err (s : St) (r : SpawnRet) (h : SpawnRet.isFail r = true) :
+    next me s (.spawnRet r) = .ok (failUpd r s) := by
+  cases r <;> first | rfl | simp [SpawnRet.isFail] at h
+@[simp] theorem next_spawnRet_registered (s : St) : next me s (.spawnRet .registered) = .ok s := rfl
+@[simp] theorem next_instant (s : St) : next me s .instant = .ok s := rfl
+@[simp] theorem next_treeKill (s : St) : next me s .treeKill = .ok { s with killed := true } := rfl
 theorem next_spawnRet_ok (s : St) (h : s.preFailed = false) : next me s (.spawnRet .ok) = .ok s := by
   simp [next, h]
 
@@ -163,10 +179,10 @@ theorem finish_sim (a : Actor) (e : SupEv) (s : St) (hid : a.id = me) (hsup : s.
     rfl
   · simpa [finish, Actor.dropPorts] using h4
 
-theorem failSpawn_sim (a : Actor) (r : SpawnRet) (s : St) (hid : a.id = me) (hr : r ≠ .ok) :
+theorem failSpawn_sim (a : Actor) (r : SpawnRet) (s : St) (hid : a.id = me) (hr : SpawnRet.isFail r = true) :
     Sim (next me) (Post me s.sup) s (failSpawn a r) := by
   obtain ⟨h1, h2, _⟩ := cleanup_none a
-  refine ⟨s, ?_, ?_, rfl, Or.inl (by simp [failSpawn, Actor.dropPorts])⟩
+  refine ⟨failUpd r s, ?_, ?_, failUpd_sup r s, Or.inl (by simp [failSpawn, Actor.dropPorts])⟩
   · simp only [failSpawn, andThen_snd, evs_append, h1, evs_cons_ev, evs_nil, List.nil_append]
     rw [accepts_cons_ok _ _ (next_spawnRet_err me s r hr)]
     rfl
@@ -231,10 +247,8 @@ theorem listen_sim (a : Actor) (s : St) (hid : a.id = me) (hsup : s.sup = a.sup)
   split
   · rename_i hsig
     refine killedInLoop_sim me _ s hid hsup harmed hb.preFailed hb.terminal ?_
-    intro h
-    rcases hb.kill hsig with hk | hk
-    · exact hk
-    · simp [hk] at h
+    intro _
+    exact hb.kill hsig
   · rename_i hsig
     simp only []
     split
@@ -336,7 +350,7 @@ theorem send_core {a : Actor} {s : St} (m : Nat) (hc : Core a s) : Core (apiSend
   obtain ⟨h1, h2, h3, h4⟩ := apiSend_fields a m
   have hf := apiSend_frame a m
   refine Core.ofFrame hf hc ⟨hc.preFailed, hc.terminal, by rw [h1]; exact hc.stopVal, ?_, by rw [h2]; exact hc.stopTx,
-    by rw [h3, hf.sup]; exact hc.kill, by rw [hf.isLocal]; simpa using hc.localEq⟩
+    by rw [h3]; exact hc.kill, by rw [hf.isLocal]; simpa using hc.localEq⟩
     (by rw [h3]; exact hc.freshSig) rfl hc.postStop
   intro hd
   apply hc.drain
@@ -366,7 +380,7 @@ theorem stop_core {a : Actor} {s : St} (r : Reason) (hu : r.isUser = true) (hc :
       | some x => have := hc.stopTx (by simp [hsr]); simp [this] at htx
     simp only [↓reduceIte]
     refine Core.ofFrame hf hc ⟨hc.preFailed, hc.terminal, ?_, by rw [h1]; exact hc.drain, fun _ => htx',
-      by rw [h2, hf.sup]; exact hc.kill, by rw [hf.isLocal]; simpa using hc.localEq⟩
+      by rw [h2]; exact hc.kill, by rw [hf.isLocal]; simpa using hc.localEq⟩
       (by rw [h2]; exact hc.freshSig) rfl ?_
     · intro r' hr'; rw [hv] at hr'; cases hr'; exact ⟨hu, rfl⟩
     · intro r' hp
@@ -377,7 +391,7 @@ theorem stop_core {a : Actor} {s : St} (r : Reason) (hu : r.isUser = true) (hc :
     obtain ⟨hv, htx⟩ := h4 hr
     simp only [Bool.false_eq_true, ↓reduceIte]
     refine Core.ofFrame hf hc ⟨hc.preFailed, hc.terminal, by rw [hv]; exact hc.stopVal, by rw [h1]; exact hc.drain, ?_,
-      by rw [h2, hf.sup]; exact hc.kill, by rw [hf.isLocal]; simpa using hc.localEq⟩
+      by rw [h2]; exact hc.kill, by rw [hf.isLocal]; simpa using hc.localEq⟩
       (by rw [h2]; exact hc.freshSig) rfl hc.postStop
     intro h
     rcases htx with htx | htx
@@ -404,12 +418,12 @@ theorem kill_core {a : Actor} {s : St} (hc : Core a s) :
   | true =>
     simp only [↓reduceIte]
     exact Core.ofFrame hf hc ⟨hc.preFailed, hc.terminal, by rw [h2]; exact hc.stopVal, by rw [h1]; exact hc.drain,
-      by rw [h3]; exact hc.stopTx, fun _ => Or.inl rfl, by rw [hf.isLocal]; simpa using hc.localEq⟩
+      by rw [h3]; exact hc.stopTx, fun _ => rfl, by rw [hf.isLocal]; simpa using hc.localEq⟩
       (fun hfr => by rw [apiKill_fresh a hfr]; exact hc.freshSig hfr) rfl hc.postStop
   | false =>
     simp only [Bool.false_eq_true, ↓reduceIte]
     exact Core.ofFrame hf hc ⟨hc.preFailed, hc.terminal, by rw [h2]; exact hc.stopVal, by rw [h1]; exact hc.drain,
-      by rw [h3]; exact hc.stopTx, by rw [h4 hr, hf.sup]; exact hc.kill, by rw [hf.isLocal]; simpa using hc.localEq⟩
+      by rw [h3]; exact hc.stopTx, by rw [h4 hr]; exact hc.kill, by rw [hf.isLocal]; simpa using hc.localEq⟩
       (fun hfr => by rw [apiKill_fresh a hfr]; exact hc.freshSig hfr) rfl hc.postStop
 
 theorem kill_killStrong {a : Actor} {s : St} (h : KillStrong a s) :
@@ -432,7 +446,7 @@ theorem drain_core {a : Actor} {s : St} (hc : Core a s) :
   | true =>
     simp only [↓reduceIte]
     refine Core.ofFrame hf hc ⟨hc.preFailed, hc.terminal, by rw [h1]; exact hc.stopVal, fun _ => rfl,
-      by rw [h2]; exact hc.stopTx, by rw [h3, hf.sup]; exact hc.kill, by rw [hf.isLocal]; simpa using hc.localEq⟩
+      by rw [h2]; exact hc.stopTx, by rw [h3]; exact hc.kill, by rw [hf.isLocal]; simpa using hc.localEq⟩
       (by rw [h3]; exact hc.freshSig) rfl ?_
     intro r hp
     rcases hc.postStop r hp with h | ⟨h, _⟩
@@ -443,7 +457,7 @@ theorem drain_core {a : Actor} {s : St} (hc : Core a s) :
     rcases h4 with h4 | h4
     · rw [hr] at h4; cases h4
     · exact Core.ofFrame hf hc ⟨hc.preFailed, hc.terminal, by rw [h1]; exact hc.stopVal, by rw [h4]; exact hc.drain,
-        by rw [h2]; exact hc.stopTx, by rw [h3, hf.sup]; exact hc.kill, by rw [hf.isLocal]; simpa using hc.localEq⟩
+        by rw [h2]; exact hc.stopTx, by rw [h3]; exact hc.kill, by rw [hf.isLocal]; simpa using hc.localEq⟩
         (by rw [h3]; exact hc.freshSig) rfl hc.postStop
 
 theorem Core.congr {a a' : Actor} {s : St} (h0 : a'.phase = a.phase) (h1 : a'.armed = a.armed)
@@ -456,7 +470,23 @@ theorem Core.congr {a a' : Actor} {s : St} (h0 : a'.phase = a.phase) (h1 : a'.ar
     stopVal := by rw [h3]; exact hc.stopVal
     drain := by rw [h4]; exact hc.drain
     stopTx := by rw [h5]; exact hc.stopTx
-    kill := by rw [h6, h7]; exact hc.kill
+    kill := by rw [h6]; exact hc.kill
+    armed := by rw [h0, h1]; exact hc.armed
+    notify := by rw [h0, h2]; exact hc.notify
+    started := by rw [h0]; exact hc.started
+    postStop := by rw [h0]; exact hc.postStop }
+
+theorem Core.congr' {a a' : Actor} {s : St} (h0 : a'.phase = a.phase) (h1 : a'.armed = a.armed)
+    (h2 : a'.notifyOnCancel = a.notifyOnCancel) (h3 : a'.stopVal = a.stopVal) (h4 : a'.msgQ = a.msgQ)
+    (h5 : a'.stopTx = a.stopTx) (h6 : a'.sigVal = a.sigVal)
+    (h8 : a'.isLocal = a.isLocal) (hc : Core a s) : Core a' s :=
+  { preFailed := hc.preFailed, terminal := hc.terminal
+    localEq := by rw [h8]; exact hc.localEq
+    freshSig := by rw [h0, h6]; exact hc.freshSig
+    stopVal := by rw [h3]; exact hc.stopVal
+    drain := by rw [h4]; exact hc.drain
+    stopTx := by rw [h5]; exact hc.stopTx
+    kill := by rw [h6]; exact hc.kill
     armed := by rw [h0, h1]; exact hc.armed
     notify := by rw [h0, h2]; exact hc.notify
     started := by rw [h0]; exact hc.started
@@ -564,7 +594,7 @@ theorem Base.congr {a a' : Actor} {s : St} (h3 : a'.stopVal = a.stopVal) (h4 : a
     (h5 : a'.stopTx = a.stopTx) (h6 : a'.sigVal = a.sigVal) (h7 : a'.sup = a.sup)
     (h8 : a'.isLocal = a.isLocal) (hb : Base a s) : Base a' s :=
   ⟨hb.preFailed, hb.terminal, by rw [h3]; exact hb.stopVal, by rw [h4]; exact hb.drain,
-   by rw [h5]; exact hb.stopTx, by rw [h6, h7]; exact hb.kill, by rw [h8]; exact hb.localEq⟩
+   by rw [h5]; exact hb.stopTx, by rw [h6]; exact hb.kill, by rw [h8]; exact hb.localEq⟩
 
 theorem exitUpd_sup (cb : Cb) (r : Res) (s : St) : (exitUpd cb r s).sup = s.sup := by
   cases cb <;> cases r <;> rfl
@@ -619,6 +649,7 @@ theorem afterExit_sim (a : Actor) (s2 : St) (cb : Cb) (r : Res) (hid : a.id = me
     rwa [exitUpd_sup] at this
   cases hph : a.phase with
   | fresh => simp [hph, Phase.isTask] at htask
+  | cell => simp [hph, Phase.isTask] at htask
   | pre => simp [hph, Phase.isTask] at htask
   | done => simp [hph, Phase.isTask] at htask
   | ready => simp [hph, Phase.openCb] at hcb
@@ -710,10 +741,10 @@ theorem afterPre_sim (a : Actor) (s2 : St) (supOk : Bool) (r : Res) (hid : a.id 
   have harmed : a.armed = true := hc.armed (by simp [hph])
   cases r with
   | err n =>
-    have := failSpawn_sim me a (.startup false n) (exitUpd .preStart (.err n) s2) hid (by simp)
+    have := failSpawn_sim me a (.startup false n) (exitUpd .preStart (.err n) s2) hid rfl
     simpa [afterPre, exitUpd_sup] using this
   | panic n =>
-    have := failSpawn_sim me a (.startup true n) (exitUpd .preStart (.panic n) s2) hid (by simp)
+    have := failSpawn_sim me a (.startup true n) (exitUpd .preStart (.panic n) s2) hid rfl
     simpa [afterPre, exitUpd_sup] using this
   | ok =>
     simp only [afterPre]
@@ -728,17 +759,17 @@ theorem afterPre_sim (a : Actor) (s2 : St) (supOk : Bool) (r : Res) (hid : a.id 
               stopVal := by rw [h5]; exact hc.stopVal
               drain := by rw [h6]; exact hc.drain
               stopTx := by rw [h7]; exact hc.stopTx
-              kill := by rw [h8]; intro h; exact Or.inl (hks h)
+              kill := by rw [h8]; intro h; exact hks h
               armed := by intro _; rw [h3]; exact harmed
               notify := by intro _; exact h4
               started := by intro h; rw [show (exitUpd Cb.preStart Res.ok s2).startedEmitted = s2.startedEmitted from rfl, hse] at h; cases h
               postStop := by intro r hr; rw [h2] at hr; cases hr }
     split
     · split
-      · have := failSpawn_sim me a .nolink (exitUpd .preStart .ok s2) hid (by simp)
+      · have := failSpawn_sim me a .nolink (exitUpd .preStart .ok s2) hid rfl
         simpa [exitUpd_sup] using this
       · refine ⟨exitUpd .preStart .ok s2, ?_, hlinked _ rfl rfl rfl rfl rfl rfl rfl rfl rfl⟩
-        simp only [evs_cons_eff, evs_cons_ev, evs_nil]
+        simp only [andThen_snd, evs_append, evs_doLink, evs_cons_ev, evs_nil, List.nil_append]
         rw [accepts_cons_ok _ _ (next_spawnRet_ok me (exitUpd .preStart .ok s2) hc.preFailed)]
         rfl
     · refine ⟨exitUpd .preStart .ok s2, ?_, hlinked _ rfl rfl rfl rfl rfl rfl rfl rfl rfl⟩
@@ -758,10 +789,8 @@ theorem pollOpen_sim (a : Actor) (s : St) (cb : Cb) (hid : a.id = me) (hsup : s.
   split
   · rename_i hsig
     have hk : a.sup.isSome = true → s.killed = true := by
-      intro h
-      rcases hc.kill hsig with hk | hk
-      · exact hk
-      · simp [hk] at h
+      intro _
+      exact hc.kill hsig
     refine Sim.andThen _ (R1 := fun a1 s1 => s1 = s ∧ a1 = { a with woken := false, sigVal := false })
       ⟨s, by simp [say, accepts_cons, next_cancelled_other me s cb (openCb_ne_pre hcb htask)], rfl, rfl⟩ ?_
     rintro a1 s1 ⟨rfl, rfl⟩
@@ -799,10 +828,8 @@ theorem opPoll_sim (a : Actor) (s : St) (h : Inv me a s) : Sim (next me) (Post m
     split
     · rename_i hsig
       have hk : a.sup.isSome = true → s.killed = true := by
-        intro h'
-        rcases hc.kill hsig with hk | hk
-        · exact hk
-        · simp [hk] at h'
+        intro _
+        exact hc.kill hsig
       exact killedOutsideLoop_sim me _ s hid hsup harmed hc.preFailed hc.terminal hk
     · refine ⟨{ s with startable := false }, by simp [accepts_cons], hid, rfl, Or.inr ?_⟩
       have hse : s.startedEmitted = false := by
@@ -845,7 +872,7 @@ theorem opSpawn_sim (a : Actor) (s : St) (sup : Option Nat) (name : Option Strin
     split
     · refine ⟨s, ?_, by rw [hsup]; exact h⟩
       simp only [evs_cons_ev, evs_nil]
-      rw [accepts_cons_ok _ _ (next_spawnRet_err me s .registered (by simp))]
+      rw [accepts_cons_ok _ _ (next_spawnRet_registered me s)]
       rfl
     have hc := Inv.core me h (by simp [hph])
     have hse : s.startedEmitted = false := by
@@ -876,7 +903,7 @@ theorem opSpawn_sim (a : Actor) (s : St) (sup : Option Nat) (name : Option Strin
         · -- thread-local, link refused: nothing happened
           refine ⟨s, ?_, by rw [hsup]; exact h⟩
           simp only [evs_cons_ev, evs_nil]
-          rw [accepts_cons_ok _ _ (next_spawnRet_err me s .nolink (by simp))]
+          rw [accepts_cons_ok _ _ (next_spawnRet_err me s .nolink rfl)]
           rfl
         · refine ⟨{ s with isLocal := true, startable := false }, by simp [accepts_cons], hid, rfl, Or.inr ?_⟩
           exact hnew _ _ rfl rfl rfl rfl rfl rfl rfl rfl rfl rfl rfl rfl
@@ -884,6 +911,97 @@ theorem opSpawn_sim (a : Actor) (s : St) (sup : Option Nat) (name : Option Strin
         exact hnew _ _ rfl rfl rfl rfl rfl rfl rfl rfl rfl rfl rfl rfl
     · refine ⟨{ s with startable := false }, by simp [accepts_cons], hid, rfl, Or.inr ?_⟩
       exact hnew _ _ rfl rfl rfl rfl rfl rfl (by simpa using hc.localEq) rfl rfl rfl rfl rfl
+  · exact ⟨s, rfl, by rw [hsup]; exact h⟩
+
+theorem core_enter_pre {a a' : Actor} {s : St} (hc : Core a s) (hse : s.startedEmitted = false)
+    (h0 : a'.phase = .pre) (h1 : a'.armed = true) (h3 : a'.stopVal = a.stopVal) (h4 : a'.msgQ = a.msgQ)
+    (h5 : a'.stopTx = a.stopTx) (h6 : a'.sigVal = a.sigVal) (h8 : a'.isLocal = a.isLocal) :
+    Core a' { s with startable := false } :=
+  { preFailed := hc.preFailed, terminal := hc.terminal
+    localEq := by rw [h8]; exact hc.localEq
+    freshSig := by intro hfr; rw [h0] at hfr; cases hfr
+    stopVal := by rw [h3]; exact hc.stopVal
+    drain := by rw [h4]; exact hc.drain
+    stopTx := by rw [h5]; exact hc.stopTx
+    kill := by rw [h6]; exact hc.kill
+    armed := fun _ => h1
+    notify := by intro h'; rw [h0] at h'; simp [Phase.isTask] at h'
+    started := by
+      intro h'
+      rw [show ({ s with startable := false } : St).startedEmitted = s.startedEmitted from rfl, hse] at h'
+      cases h'
+    postStop := by intro r hr; rw [h0] at hr; cases hr }
+
+theorem beginPre_sim (a : Actor) (s : St) (hid : a.id = me) (hc : Core a s) (hph : a.phase = .cell) :
+    Sim (next me) (Post me s.sup) s (beginPre a) := by
+  have hse : s.startedEmitted = false := by
+    cases h' : s.startedEmitted with
+    | false => rfl
+    | true => have := hc.started h'; simp [hph, pastPostStart] at this
+  unfold beginPre
+  split
+  · refine Sim.andThen _ (R1 := fun a2 s2 => s2 = s ∧ a2.id = me)
+      ⟨s, by simp [handleSignal], rfl, by simpa [handleSignal] using hid⟩ ?_
+    rintro a2 s2 ⟨rfl, hid2⟩
+    exact failSpawn_sim me a2 .killed s2 hid2 rfl
+  · refine ⟨{ s with startable := false }, by simp [accepts_cons], by simpa using hid, rfl, Or.inr ?_⟩
+    exact core_enter_pre hc hse rfl (hc.armed (by simp [hph])) rfl rfl rfl rfl rfl
+
+theorem startInstant_sim (a : Actor) (s : St) (supOk : Bool) (hid : a.id = me) (hc : Core a s)
+    (hph : a.phase = .cell) : Sim (next me) (Post me s.sup) s (startInstant a supOk) := by
+  unfold startInstant
+  simp only []
+  have hc' : Core ({ a with status := .starting } : Actor) s :=
+    hc.congr' (by rfl) (by rfl) (by rfl) (by rfl) (by rfl) (by rfl) (by rfl) (by rfl)
+  split
+  · split
+    · split
+      · exact failSpawn_sim me _ .nolink s hid rfl
+      · refine Sim.andThen _ (R1 := fun a1 s1 => s1 = s ∧ a1.id = me ∧ a1.phase = .cell ∧ Core a1 s)
+          ⟨s, by simp, rfl, by simpa using hid, by simpa using hph,
+           hc.congr' (by simp) (by simp) (by simp) (by simp) (by simp) (by simp) (by simp) (by simp)⟩ ?_
+        rintro a1 s1 ⟨rfl, h1, h2, h3⟩
+        exact beginPre_sim me a1 s1 h1 h3 h2
+    · exact beginPre_sim me _ s hid hc' hph
+  · exact beginPre_sim me _ s hid hc' hph
+
+theorem opSpawnInstant_sim (a : Actor) (s : St) (sup : Option Nat) (name : Option String) (nameFree : Bool)
+    (isLocal : Bool) (h : Inv me a s) :
+    Sim (next me) (Post me a.sup) s (opSpawnInstant a sup name nameFree isLocal) := by
+  have hid := h.1
+  have hsup := h.2.1
+  rw [← hsup]
+  unfold opSpawnInstant
+  split
+  · rename_i hph
+    split
+    · exact ⟨s, by simp [accepts_cons], by rw [hsup]; exact h⟩
+    have hc := Inv.core me h (by simp [hph])
+    have hse : s.startedEmitted = false := by
+      cases h' : s.startedEmitted with
+      | false => rfl
+      | true => have := hc.started h'; simp [hph, pastPostStart] at this
+    have hnew : ∀ (a' : Actor) (s' : St), a'.phase = .cell → a'.armed = true → a'.stopVal = a.stopVal →
+        a'.msgQ = a.msgQ → a'.stopTx = a.stopTx → a'.sigVal = a.sigVal → s'.isLocal = a'.isLocal →
+        s'.preFailed = s.preFailed → s'.terminalEmitted = s.terminalEmitted → s'.stopReason = s.stopReason →
+        s'.drainReq = s.drainReq → s'.startedEmitted = s.startedEmitted → s'.killed = s.killed → Core a' s' := by
+      intro a' s' h0 h1 h3 h4 h5 h6 hl p1 p2 p3 p4 p5 p6
+      exact { preFailed := by rw [p1]; exact hc.preFailed, terminal := by rw [p2]; exact hc.terminal
+              localEq := hl
+              freshSig := by intro hfr; rw [h0] at hfr; cases hfr
+              stopVal := by rw [h3, p3]; exact hc.stopVal
+              drain := by rw [h4, p4]; exact hc.drain
+              stopTx := by rw [h5, p3]; exact hc.stopTx
+              kill := by rw [h6, p6]; exact hc.kill
+              armed := by intro _; exact h1
+              notify := by intro h'; rw [h0] at h'; simp [Phase.isTask] at h'
+              started := by intro h'; rw [p5, hse] at h'; cases h'
+              postStop := by intro r hr; rw [h0] at hr; cases hr }
+    split
+    · refine ⟨{ s with isLocal := true }, by simp [accepts_cons], hid, rfl, Or.inr ?_⟩
+      exact hnew _ _ rfl rfl rfl rfl rfl rfl rfl rfl rfl rfl rfl rfl rfl
+    · refine ⟨s, by simp [accepts_cons], hid, rfl, Or.inr ?_⟩
+      exact hnew _ _ rfl rfl rfl rfl rfl rfl (by simpa using hc.localEq) rfl rfl rfl rfl rfl rfl
   · exact ⟨s, rfl, by rw [hsup]; exact h⟩
 
 theorem opPollSpawn_sim (a : Actor) (s : St) (supOk : Bool) (h : Inv me a s) :
@@ -894,6 +1012,8 @@ theorem opPollSpawn_sim (a : Actor) (s : St) (supOk : Bool) (h : Inv me a s) :
   unfold opPollSpawn
   split
   · rename_i hph
+    exact startInstant_sim me a s supOk hid (Inv.core me h (by simp [hph])) hph
+  · rename_i hph
     have hc := Inv.core me h (by simp [hph])
     split
     · refine Sim.andThen _ (R1 := fun a1 s1 => s1.sup = s.sup ∧ a1.id = me)
@@ -901,7 +1021,7 @@ theorem opPollSpawn_sim (a : Actor) (s : St) (supOk : Bool) (h : Inv me a s) :
       rintro a1 s1 ⟨hs1, hid1⟩
       refine Sim.andThen _ (R1 := fun a2 s2 => s2 = s1 ∧ a2.id = me) ⟨s1, by simp [handleSignal], rfl, by simpa [handleSignal] using hid1⟩ ?_
       rintro a2 s2 ⟨rfl, hid2⟩
-      have := failSpawn_sim me a2 .killed s2 hid2 (by simp)
+      have := failSpawn_sim me a2 .killed s2 hid2 rfl
       rwa [hs1] at this
     · rename_i hsig
       split
@@ -924,7 +1044,13 @@ theorem opDropSpawn_sim (a : Actor) (s : St) (h : Inv me a s) :
   split
   · obtain ⟨h1, h2, _⟩ := cleanup_none a
     refine ⟨{ s with preFailed := true }, ?_, ?_, rfl, Or.inl (by simp [Actor.dropPorts])⟩
-    · simp only [andThen_snd, andThen_fst, evs_append, evs_cons_ev, evs_nil, h1, List.append_nil]
+    · simp only [andThen_snd, andThen_fst, evs_append, evs_cons_ev, evs_cons_note, evs_nil, h1, List.append_nil]
+      rw [accepts_cons_ok _ _ (next_dropped me s)]
+      rfl
+    · simp [Actor.dropPorts, h2, hid]
+  · obtain ⟨h1, h2, _⟩ := cleanup_none a
+    refine ⟨{ s with preFailed := true }, ?_, ?_, rfl, Or.inl (by simp [Actor.dropPorts])⟩
+    · simp only [andThen_snd, andThen_fst, evs_append, evs_cons_ev, evs_nil, h1, List.append_nil, evs_ite_note]
       rw [accepts_cons_ok _ _ (next_dropped me s), accepts_cons_ok _ _ (next_cancelled_pre me _)]
       rfl
     · simp [Actor.dropPorts, h2, hid]
@@ -1007,40 +1133,65 @@ theorem envOp_sim (a : Actor) (s : St) (op : AOp) (h : Inv me a s) :
     · exact ⟨s, by simp [accepts_cons], h⟩
   | treeTaken =>
     simp only [Actor.envOp, opTreeTaken]
-    refine ⟨s, by simp, ?_⟩
     have hf := apiKill_frame { a with sup := none }
-    obtain ⟨h1, h2, h3, _⟩ := apiKill_fields { a with sup := none }
-    refine ⟨?_, h.2.1, ?_⟩
-    · split
-      · simpa [hf.id] using h.1
-      · exact h.1
-    · rcases h.2.2 with hd | hc
-      · left; split
-        · simpa [hf.phase] using hd
-        · exact hd
-      · right
-        split
-        · exact { preFailed := hc.preFailed, terminal := hc.terminal
-                  localEq := by simpa [hf.isLocal] using hc.localEq
+    obtain ⟨h1, h2, h3, h4⟩ := apiKill_fields { a with sup := none }
+    split
+    · -- the kill is issued; `s'` = the automaton after the optional `treeKill`
+      have hmain : ∀ s' : St, s'.sup = s.sup → s'.preFailed = s.preFailed → s'.terminalEmitted = s.terminalEmitted →
+          s'.stopReason = s.stopReason → s'.drainReq = s.drainReq → s'.isLocal = s.isLocal →
+          s'.startedEmitted = s.startedEmitted →
+          (Core a s → (apiKill { a with sup := none }).1.sigVal = true → s'.killed = true) →
+          Post me a.sup ({ (apiKill { a with sup := none }).1 with kids := none } : Actor) s' := by
+        intro s' q0 q1 q2 q3 q4 q5 q6 hk
+        refine ⟨by simpa [hf.id] using h.1, by rw [q0]; exact h.2.1, ?_⟩
+        rcases h.2.2 with hd | hc
+        · left; simpa [hf.phase] using hd
+        · right
+          exact { preFailed := by rw [q1]; exact hc.preFailed, terminal := by rw [q2]; exact hc.terminal
+                  localEq := by rw [q5]; simpa [hf.isLocal] using hc.localEq
                   freshSig := by
                     intro hfr
                     have hfr' : a.phase = .fresh := by simpa [hf.phase] using hfr
                     rw [apiKill_fresh _ (by simpa using hfr')]
                     exact hc.freshSig hfr'
-                  stopVal := by simpa [h2] using hc.stopVal
-                  drain := by simpa [h1] using hc.drain
-                  stopTx := by simpa [h3] using hc.stopTx
-                  kill := by intro _; right; simpa using hf.sup
+                  stopVal := by rw [q3]; simpa [h2] using hc.stopVal
+                  drain := by rw [q4]; simpa [h1] using hc.drain
+                  stopTx := by rw [q3]; simpa [h3] using hc.stopTx
+                  kill := by simpa using hk hc
                   armed := by simpa [hf.phase, hf.armed] using hc.armed
                   notify := by simpa [hf.phase, hf.notify] using hc.notify
-                  started := by simpa [hf.phase] using hc.started
-                  postStop := by simpa [hf.phase] using hc.postStop }
-        · exact { preFailed := hc.preFailed, terminal := hc.terminal
-                  localEq := by simpa using hc.localEq, freshSig := by simpa using hc.freshSig
-                  stopVal := by simpa using hc.stopVal, drain := by simpa using hc.drain
-                  stopTx := by simpa using hc.stopTx, kill := by intro _; right; rfl
-                  armed := by simpa using hc.armed, notify := by simpa using hc.notify
-                  started := by simpa using hc.started, postStop := by simpa using hc.postStop }
+                  started := by rw [q6]; simpa [hf.phase] using hc.started
+                  postStop := by rw [q3, q4]; simpa [hf.phase] using hc.postStop }
+      cases hk : (apiKill { a with sup := none }).2 with
+      | true =>
+        exact ⟨{ s with killed := true }, by simp [hk, accepts_cons], hmain _ rfl rfl rfl rfl rfl rfl rfl (fun _ _ => rfl)⟩
+      | false =>
+        refine ⟨s, by simp [hk], hmain _ rfl rfl rfl rfl rfl rfl rfl ?_⟩
+        intro hc hsv
+        rw [h4 hk] at hsv
+        exact hc.kill (by simpa using hsv)
+    · refine ⟨s, by simp, h.1, h.2.1, ?_⟩
+      rcases h.2.2 with hd | hc
+      · left; exact hd
+      · right
+        exact { preFailed := hc.preFailed, terminal := hc.terminal
+                localEq := by simpa using hc.localEq, freshSig := by simpa using hc.freshSig
+                stopVal := by simpa using hc.stopVal, drain := by simpa using hc.drain
+                stopTx := by simpa using hc.stopTx, kill := by simpa using hc.kill
+                armed := by simpa using hc.armed, notify := by simpa using hc.notify
+                started := by simpa using hc.started, postStop := by simpa using hc.postStop }
+  | link p ok =>
+    simp only [Actor.envOp, opLink]
+    split
+    · exact ⟨s, rfl, h⟩
+    · exact ⟨s, by simp, h.1, h.2.1, h.2.2.imp id (fun hc =>
+        hc.congr' (by rfl) (by rfl) (by rfl) (by rfl) (by rfl) (by rfl) (by rfl) (by rfl))⟩
+  | unlink p =>
+    simp only [Actor.envOp, opUnlink]
+    split
+    · exact ⟨s, by simp, h.1, h.2.1, h.2.2.imp id (fun hc =>
+        hc.congr' (by rfl) (by rfl) (by rfl) (by rfl) (by rfl) (by rfl) (by rfl) (by rfl))⟩
+    · exact ⟨s, rfl, h⟩
   | kidAdd c => exact ⟨s, rfl, Post.congr (by rfl) (by rfl) (by rfl) (by rfl) (by rfl) (by rfl) (by rfl) (by rfl) (by rfl) (by rfl) h⟩
   | kidDel c => exact ⟨s, rfl, Post.congr (by rfl) (by rfl) (by rfl) (by rfl) (by rfl) (by rfl) (by rfl) (by rfl) (by rfl) (by rfl) h⟩
   | call k =>
@@ -1071,6 +1222,7 @@ theorem stepCore_sim (a : Actor) (s : St) (op : AOp) (h : Inv me a s) :
     Sim (next me) (Post me a.sup) s (a.stepCore op) := by
   cases op with
   | spawn sup name nameFree isLocal supOk => exact opSpawn_sim me a s sup name nameFree isLocal supOk h
+  | spawnInstant sup name nameFree isLocal => exact opSpawnInstant_sim me a s sup name nameFree isLocal h
   | pollSpawn supOk => exact opPollSpawn_sim me a s supOk h
   | dropSpawn => exact opDropSpawn_sim me a s h
   | poll => exact Sim.pollMark _ (next_polled me) (opPoll_sim me a s h)
